@@ -7,7 +7,7 @@ namespace sim {
 
 std::vector<u32> g_default_report_cps;
 
-static bool is_content_kind(const std::string &k) { return k == "BITROT" || k == "TRUNCATE" || k == "TORN" || k == "SETBYTES" || k == "CODEROT" || k == "LOOPROT" || k == "REFETCH_DIFFERS"; }
+static bool is_content_kind(const std::string &k) { return k == "BITROT" || k == "TRUNCATE" || k == "TORN" || k == "SETBYTES" || k == "CODEROT" || k == "LOOPROT" || k == "SIZEROT" || k == "REFETCH_DIFFERS"; }
 static bool is_file_fn(const std::string &t) { return t == "fopen" || t == "fseek" || t == "ftell" || t == "fread"; }
 
 // a hinted font whose advance callback is a pure function of the glyph id (no state: the library may call it in any order)
@@ -290,6 +290,7 @@ OpResult World::op_justify(const Op &op) {
     double width;
     i64 w16 = op.arg(2);
     width = double(w16) / 16.0;
+    if (w16 <= -1000000) { static const double special[] = {1e30, 3.0e38, 1e37, 2.7e36, 1e-30, 65536.0 * 65536.0 * 65536.0, 4294967296.0, -1e30}; width = special[size_t(u64(-w16) % 8)]; }   // widths a 16.16-style integer cannot express
     int flags = int(op.arg(3)) & 3;
     const gr_slot *pFirst = 0, *pLast = 0;
     size_t len = b - a;
